@@ -348,6 +348,8 @@ class AbstractDateTime(AnyAtomicType):
             return '-0001' if self._xsd_version == '1.0' else '0000'
         elif 0 <= year <= 9999:
             return '{:04}'.format(year)
+        elif year < 0 and self._xsd_version != '1.0':
+            return str(year + 1)
         else:
             return str(year)
 
